@@ -121,6 +121,25 @@ let parse_cfg (tok : string) : cfg =
       ignore_pre = bool_of_char f.[0]; ignore_post = bool_of_char f.[1] }
   | _ -> failwith ("bad cfg " ^ tok)
 
+(* IPv4 NLRI with host bits set are accepted by packet.Decode, stored unmasked and corrupt the routing
+   tables below (C01_noncanonical_refuted, notes/C19.md): for a case whose BGP layer produced such a prefix
+   the tables are left out of the comparison (everything else is still compared) *)
+let noncanonical = ref false and noncanonical_cases = ref 0
+let event_noncanonical (e : uevent) : bool =
+  let chk v6 (a, l) =
+    if v6 then false else
+      let l = int_of_n l in
+      l > 32 || (l < 32 && (match a with N0 -> false | _ -> (int_of_n a) land ((1 lsl (32 - l)) - 1) <> 0)) in
+  match e with UAnn (v6, p, _, _) -> chk v6 p | UWdr (v6, p, _) -> chk v6 p
+let strip_tables (d : string) : string =
+  if not !noncanonical then d else
+    match Str.bounded_split_delim (Str.regexp_string "|v=") d 2 with
+    | [a; rest] ->
+      (match Str.bounded_split_delim (Str.regexp_string "|x=") rest 2 with
+       | [_; b] -> a ^ "|v=*|x=" ^ b
+       | _ -> d)
+    | _ -> d
+
 let starts (p : string) (s : string) : bool =
   String.length s >= String.length p && String.sub s 0 (String.length p) = p
 
@@ -182,7 +201,7 @@ let run_c27 id (c : cfg) (stream : n list) (obs : string list) =
   let rec cmp i ms is =
     match ms, is with
     | [], [] -> ()
-    | m :: mr, x :: ir -> if m <> x then (bad := true; mismatch id "message=%d model=%s impl=%s" i m x) else cmp (i + 1) mr ir
+    | m :: mr, x :: ir -> if strip_tables m <> strip_tables x then (bad := true; mismatch id "message=%d model=%s impl=%s" i m x) else cmp (i + 1) mr ir
     | m :: _, [] -> bad := true; mismatch id "message=%d model processes a message (%s), impl does not" i m
     | [], x :: _ -> bad := true; mismatch id "message=%d impl processes a message (%s), model does not" i x in
   cmp 0 macc fobs;
@@ -192,7 +211,7 @@ let run_c27 id (c : cfg) (stream : n list) (obs : string list) =
      | [e] ->
        let impl_panics = starts "END|PANIC" e in
        if impl_panics && res <> "PANIC" then mismatch id "impl panicked (%s), model does not" e
-       else if (not impl_panics) && e <> mend then mismatch id "end model=%s impl=%s" mend e
+       else if (not impl_panics) && strip_tables e <> strip_tables mend then mismatch id "end model=%s impl=%s" mend e
      | _ -> mismatch id "no END observation");
     (* the whole stack's allocation (BMP layer + BGP decoder) against BMPStack_alloc_proportional *)
     if !use_stack then begin
@@ -241,7 +260,7 @@ let run_c28 id (c : cfg) (acts : string list) (obs : string list) =
   let rec cmp i ms is =
     match ms, is with
     | [], [] -> ()
-    | m :: mr, x :: ir -> if m <> x then mismatch id "action=%d model=%s impl=%s" i m x else cmp (i + 1) mr ir
+    | m :: mr, x :: ir -> if strip_tables m <> strip_tables x then mismatch id "action=%d model=%s impl=%s" i m x else cmp (i + 1) mr ir
     | m :: _, [] -> mismatch id "action=%d missing in the impl observation (model=%s)" i m
     | [], x :: _ -> mismatch id "action=%d missing in the model (impl=%s)" i x in
   let before = !mism in
@@ -256,6 +275,8 @@ let () =
         mismatch id "implementation %s, the model serves every stream" (List.hd obs)
       else begin
         List.iter (fun t -> if starts "O:" t || starts "U:" t then add_annotation t) obs;
+        noncanonical := Hashtbl.fold (fun _ evs acc -> acc || List.exists event_noncanonical evs) upd_tbl false;
+        if !noncanonical then incr noncanonical_cases;
         incr compared;
         match inp with
         | c :: rest ->
@@ -274,4 +295,4 @@ let () =
           use_stack := false
         | [] -> mismatch id "empty input"
       end);
-  Printf.printf "STATS compared=%d mismatches=%d stack_compared=%d\n" !compared !mism !stack_compared
+  Printf.printf "STATS compared=%d mismatches=%d stack_compared=%d tables_skipped_noncanonical_ipv4=%d\n" !compared !mism !stack_compared !noncanonical_cases
